@@ -48,7 +48,7 @@ CLAIMS = {
           "class/field/method reference and requires it to be produced by the remapping machinery applied to the same-named source position; all other "
           "positions must be the source position unchanged; constants in output positions are drops. Plus: atom -> BRemapper query table, members "
           "mapped with the original owner name, generic Option/Vec plumbing, jar entry-name rewrite (.class suffix, map_class, stored under new name), "
-          "non-class entries copied, ClassRepr read table. (R07.2 additions) every entry of the input jar yields an output entry (no filter/continue), a zip entry is a class exactly when its name ends in `.class`. Premises evaluated with it: C06 R06.1/R06.4 (BRemapper default methods, map_desc), C02 R02.1-3 (writer layout, lengths, attribute counts). (R07.4) totality: inside dukebox::remap every refusal (bail!/Err/ok_or/panic) is the propagation of a failed remapper or helper call - the traversal fails only when the remapper fails; (R07.1) every alternative of a remapped position is a remap-machinery call on the same-named source position (not derived from another position); premise C02 R02.9 (invokeinterface argument-slot count).",
+          "non-class entries copied, ClassRepr read table. (R07.2 additions) every entry of the input jar yields an output entry (no filter/continue), a zip entry is a class exactly when its name ends in `.class`; remap_class / remap_other are applied to every class / other entry unconditionally (no name- or content-dependent shortcut). (R07.3 addition) the name of the class being remapped (`this_class`) is the owner of a map_field/map_method lookup only in the impls for Field and Method, elsewhere it is only handed on. Premises evaluated with it: C06 R06.1/R06.4 (BRemapper default methods, map_desc), C02 R02.1-3 (writer layout, lengths, attribute counts). (R07.4) totality: inside dukebox::remap every refusal (bail!/Err/ok_or/panic) is the propagation of a failed remapper or helper call - the traversal fails only when the remapper fails; (R07.1) every alternative of a remapped position is a remap-machinery call on the same-named source position (not derived from another position); premise C02 R02.9 (invokeinterface argument-slot count).",
   "note": "Not decided: that the remapper's answers are right (C06), that the written jar re-opens (zip validity), that duke writes the remapped class "
           "correctly (C02). 15 recorded findings (unremapped signatures/inner names/annotation names/indy name, dropped module/record/unknown attributes) "
           "are listed in known_findings.json by exact (type, field) key. Trusted: rustc HIR/typeck; the atom list in rules/c07.py.",
